@@ -4,5 +4,6 @@ CONSTANTS
   Key = {"k1", "k2"}
   Hash = {"h1", "h2"}
   Mangle = {"none", "flipbit", "truncate", "empty", "othersig"}
-INVARIANT Exact
+  Way = {"set", "scheme", "copy", "decode", "assign"}
+INVARIANTS Exact ObjectBound ObjectExact
 CHECK_DEADLOCK FALSE
